@@ -8,6 +8,9 @@
 //!  * the engine's result vs Rust's own `a + b`, `a - b`, `a * b`, `a / b`,
 //!    `a.div_euclid(b)`, `a.rem_euclid(b)` on the operands converted with `as f64`
 //!    (hardware; independent of the model)                               — the property itself
+//!  * the soft-float operations themselves (driver request `raw`, no number.rs in front) vs the
+//!    hardware, on the operand pairs the engine never passes to float arithmetic (zero divisors:
+//!    x/0, 0/0, x % 0) and on a sample of all other pairs                — model vs hardware
 use std::cell::RefCell;
 use std::collections::{BTreeMap, HashSet};
 use std::sync::atomic::{AtomicUsize, Ordering as AtOrd};
@@ -71,6 +74,23 @@ fn run_tpl(tera: &Tera, name: &str, a: &Value, b: &Value) -> String {
             format!("err {}", classify_err(&msg))
         }
     }
+}
+
+const RAW_OPS: [&str; 7] = ["add", "sub", "mul", "div", "fmod", "remeuclid", "diveuclid"];
+
+/// hardware result of a raw IEEE operation (no engine, no zero-divisor check)
+fn hardware_raw(op: &str, x: f64, y: f64) -> String {
+    let r = match op {
+        "add" => x + y,
+        "sub" => x - y,
+        "mul" => x * y,
+        "div" => x / y,
+        "fmod" => x % y,
+        "remeuclid" => x.rem_euclid(y),
+        "diveuclid" => x.div_euclid(y),
+        _ => unreachable!(),
+    };
+    format!("f:{:016x}", f64_bits_canon(r))
 }
 
 // ---------------------------------------------------------------- operands
@@ -538,6 +558,8 @@ struct UnitOut {
     /// (case description, model answer) of the first few disagreements / oracle failures
     mismatches: Vec<(Opd, Opd, &'static str, String, String)>,
     oracle_fails: Vec<(Opd, Opd, &'static str, String, String)>,
+    /// soft-float operation vs hardware (no engine): (op, a bits, b bits, model, hardware)
+    raw_mismatches: Vec<(&'static str, u64, u64, String, String)>,
     samples: Vec<serde_json::Value>,
     driver_error: Option<String>,
 }
@@ -560,7 +582,19 @@ fn run_unit(tera: &Tera, exe: &std::path::Path, pairs: &[(Opd, Opd, usize)], lat
             cases.push(eval_case(tera, op, a, b));
         }
     }
-    let reqs: Vec<String> = cases.iter().map(|c| c.req.clone()).collect();
+    let mut reqs: Vec<String> = cases.iter().map(|c| c.req.clone()).collect();
+    // raw soft-float operations vs hardware: every pair with a zero divisor (never reaches the
+    // engine's float arithmetic), every lattice pair, and every 4th generated pair
+    let mut raw: Vec<(&'static str, f64, f64)> = Vec::new();
+    for (k, &(a, b, _)) in pairs.iter().enumerate() {
+        let (x, y) = (a.as_f64(), b.as_f64());
+        if lattice_unit || y == 0.0 || k % 4 == 0 {
+            for op in RAW_OPS {
+                raw.push((op, x, y));
+                reqs.push(format!("raw {op} f:{:016x} f:{:016x}", f64_bits_canon(x), f64_bits_canon(y)));
+            }
+        }
+    }
     let model = match driver::run_batch(exe, &reqs) {
         Ok(m) => m,
         Err(e) => {
@@ -611,6 +645,20 @@ fn run_unit(tera: &Tera, exe: &std::path::Path, pairs: &[(Opd, Opd, usize)], lat
             out.samples.push(serde_json::json!({"request": c.req, "implementation": c.imp, "hardware": hardware(c.op, c.a, c.b), "model": model.get(i)}));
         }
     }
+    if !model.is_empty() {
+        for (j, &(op, x, y)) in raw.iter().enumerate() {
+            let got = &model[cases.len() + j];
+            let want = hardware_raw(op, x, y);
+            out.model_comparisons += 1;
+            *out.hist.entry(format!("raw.{op}{}", if y == 0.0 { ".zero-divisor" } else { "" })).or_insert(0) += 1;
+            if *got != want {
+                out.model_disagreements += 1;
+                if out.raw_mismatches.len() < 5 {
+                    out.raw_mismatches.push((op, x.to_bits(), y.to_bits(), got.clone(), want));
+                }
+            }
+        }
+    }
     out
 }
 
@@ -649,6 +697,15 @@ fn main() {
         let text = std::fs::read_to_string(&path).expect("replay file");
         let j: serde_json::Value = serde_json::from_str(&text).expect("replay json");
         let j = if j.get("replay").is_some() { j["replay"].clone() } else { j };
+        if let Some(op) = j["raw_op"].as_str() {
+            let op = RAW_OPS.iter().copied().find(|n| *n == op).expect("raw op");
+            let (a, b) = (j["a"].as_str().unwrap(), j["b"].as_str().unwrap());
+            let bits = |s: &str| u64::from_str_radix(s.strip_prefix("f:").unwrap(), 16).unwrap();
+            let req = format!("raw {op} {a} {b}");
+            let model = driver::run_batch(&exe, std::slice::from_ref(&req)).map(|m| m[0].clone());
+            println!("request: {req}\nhardware: {}\nsoft-float model: {:?}", hardware_raw(op, f64::from_bits(bits(a)), f64::from_bits(bits(b))), model);
+            return;
+        }
         let op = OPS.iter().map(|(n, _)| *n).find(|n| Some(*n) == j["op"].as_str()).expect("op");
         let a = parse_opd(j["a"].as_str().unwrap());
         let b = parse_opd(j["b"].as_str().unwrap());
@@ -670,8 +727,13 @@ fn main() {
     report.count_n("lattice.float_values", flat.len() as u64);
     report.count_n("lattice.integer_values", ilat.len() as u64);
 
-    // units of work: independent of the number of threads, each with its own forked PRNG
-    let mut units: Vec<(Vec<(Opd, Opd, usize)>, bool)> = Vec::new();
+    // units of work: independent of the number of threads, each with its own forked PRNG;
+    // generated units are produced inside the worker (only the PRNG state is kept here)
+    enum Unit {
+        Lattice(Vec<(Opd, Opd, usize)>),
+        Generated(Rng),
+    }
+    let mut units: Vec<Unit> = Vec::new();
     // (1) the full product of the float lattice, and the lattice against the integer lattice
     let mut lat_pairs: Vec<(Opd, Opd, usize)> = Vec::new();
     for &a in &flat {
@@ -692,17 +754,20 @@ fn main() {
     }
     let n_lattice_pairs = lat_pairs.len();
     for ch in lat_pairs.chunks(8192) {
-        units.push((ch.to_vec(), true));
+        units.push(Unit::Lattice(ch.to_vec()));
     }
     // (2) generated pairs by class
-    let n_random = env.budget(400_000, 2_400_000).saturating_sub(0);
+    let n_random = env.budget(400_000, 10_000_000);
     let unit_size = 8192;
     let n_units = n_random.div_ceil(unit_size);
     for _ in 0..n_units {
-        let mut r = rng.fork();
+        units.push(Unit::Generated(rng.fork()));
+    }
+    let generate = |r: &Rng| -> Vec<(Opd, Opd, usize)> {
+        let mut r = r.clone();
         let mut ps = Vec::with_capacity(unit_size);
         for _ in 0..unit_size {
-            // weights: random bits and near exponents get a double share
+            // weights: random bits, near exponents and mixed operands get a double share
             let class = match r.below(15) {
                 0 | 1 => 0,
                 2 | 3 => 1,
@@ -712,8 +777,8 @@ fn main() {
             let (a, b) = gen_pair(&mut r, class, &flat, &ilat);
             ps.push((a, b, class));
         }
-        units.push((ps, false));
-    }
+        ps
+    };
     report.count_n("pairs.lattice", n_lattice_pairs as u64);
     report.count_n("pairs.generated", (n_units * unit_size) as u64);
 
@@ -727,7 +792,10 @@ fn main() {
                 if i >= units.len() {
                     break;
                 }
-                let o = run_unit(&tera, &exe, &units[i].0, units[i].1);
+                let o = match &units[i] {
+                    Unit::Lattice(ps) => run_unit(&tera, &exe, ps, true),
+                    Unit::Generated(r) => run_unit(&tera, &exe, &generate(r), false),
+                };
                 outs.lock().unwrap().push((i, o));
             });
         }
@@ -738,6 +806,7 @@ fn main() {
     let mut distinct: HashSet<u64> = HashSet::new();
     let mut mismatches = Vec::new();
     let mut fails = Vec::new();
+    let mut raw_mismatches = Vec::new();
     let mut driver_error: Option<String> = None;
     for (_, o) in outs {
         report.evaluations += o.evaluations;
@@ -751,6 +820,7 @@ fn main() {
         distinct.extend(o.distinct);
         mismatches.extend(o.mismatches);
         fails.extend(o.oracle_fails);
+        raw_mismatches.extend(o.raw_mismatches);
         for s in o.samples {
             report.sample(s);
         }
@@ -804,6 +874,13 @@ fn main() {
                 );
             }
         }
+    }
+    for (op, x, y, model, want) in raw_mismatches.iter().take(5) {
+        report.violation(
+            "model-mismatch",
+            format!("soft-float `{op}` on f:{x:016x} f:{y:016x}: model `{model}`, hardware `{want}`"),
+            serde_json::json!({"harness_bin": "c13f", "stage": "softfloat-vs-hardware", "raw_op": op, "a": format!("f:{x:016x}"), "b": format!("f:{y:016x}"), "model": model, "hardware": want}),
+        );
     }
     report.rule = "pairs of operands (f64 bit patterns from the boundary lattice: zeros, subnormal extremes, MIN_POSITIVE, 2^k and neighbours around 2^52, 2^53, 2^63, 2^64, 2^127, 2^1023, MAX, infinities, NaN; constructed ties of + and *, products/quotients at the subnormal and overflow thresholds, cancellations, Euclidean operands with exact multiples; random bit patterns; random patterns with nearby exponents; one operand an integer of any encoding) under + - * / // %; a case is distinct by (operator, operands with encoding) and non-trivial when the engine produced a float (the float arithmetic was reached)".into();
     report.write(&out_path());
